@@ -12,11 +12,18 @@
 //         program::reduce(A, b) of the library on an equality system, next to Eigen's fullPivLu of [A|b]^T recomputed here with
 //         the same call: P, Q as index lists ((P X) row k = X row P[k]; (X Q) column j = X column Q[j]), L = unit lower
 //         trapezoid (cols+1 x min), U = upper trapezoid (min x rows), rank = dd.rank(), ret = returned flag
+//   ISOLVE <id> par=<s0,miu,alpha,beta,eps,eps0,max_iters,max_lsearch_iters> :: <SOLVE text of the stated program ... | x0 | - | - | ->
+//   IPROG <id> n=<n> m=<m> p=<p> q=<0|1> | mufx | Q | c | A | b | G | h | x0     the program AS SOLVED (ev_program_start: reduced, normalised)
+//   ITER <id> <k> exit=<0..5> | s0*smax,s1,s2,iters1,iters2,r0 | miu,alpha,beta,s0 | x | u | v | rdual | rcent | rprim | dx | du | dv
+//         | x' | u' | v' | eta',residual',status'                  one pass of the loop of solve_with_inequality (ev_program_iter)
+//   IFINAL <id> status iters fx eta rcond | x | u | v | rdual | rprim | rcent            the returned state
 //   FAIL <clause> id=<id> ...   direct property violations (oracle coded here in long double, independent of the Coq model)
 //   DONE solves=<n> converged=<n> ...
 // Usage: c04_program <quick|thorough> [count [chunk]]   (seed = VERIF_SEED, perturbed by the chunk id)
 //        c04_program replay "<the text of a SOLVE line up to (excluding) ' = '>"
 //        c04_program reduce <cols> "<A>" "<b>"     (one REDUCE line for the given equality system)
+//        c04_program iter <quick|thorough> [count [chunk]]     (ITER stage: own generator stream, solver parameters across their domains)
+//        c04_program iterreplay "<text after `:: ` of an ISOLVE line>" "<par>"     (one solve with the values hook installed)
 #include "common.h"
 #include <Eigen/Dense>
 #include <algorithm>
@@ -25,6 +32,7 @@
 #include <nano/program/solver.h>
 #include <nano/program/util.h>
 #include <nano/tensor/stack.h>
+#include <nano/verif.h>
 
 using namespace nano;
 using namespace nano::program;
@@ -831,6 +839,205 @@ std::string shist(const std::map<std::string, long>& m)
     return s.empty() ? "-" : s;
 }
 
+// ---------------------------------------------------------------------------------------------------
+// ITER stage: the Newton iteration observed through the values hook (ev_program_start / ev_program_iter)
+// ---------------------------------------------------------------------------------------------------
+struct ipar_t
+{
+    double s0{0.999}, miu{10.0}, alpha{1e-2}, beta{0.9}, eps{1e-10}, eps0{1e-16};
+    long   max_iters{300}, max_ls{50};
+};
+
+struct ievent_t
+{
+    int                 kind{0};
+    std::vector<double> values;
+};
+std::vector<ievent_t> g_ievents;
+long                  g_iter_lines = 0, g_iter_solves = 0;
+int                   g_iter_maxn = 6;
+
+void values_hook(int kind, const void*, const double* values, int count)
+{
+    if (kind == ::nano::verif::ev_program_start || kind == ::nano::verif::ev_program_iter)
+    {
+        g_ievents.push_back(ievent_t{kind, std::vector<double>(values, values + count)});
+    }
+}
+
+std::string sseg(const std::vector<double>& v, size_t& pos, const size_t count)
+{
+    if (count == 0) return "-";
+    std::string s;
+    for (size_t i = 0; i < count; ++i) { if (i) s += ","; s += vh::hexf(v.at(pos + i)); }
+    pos += count;
+    return s;
+}
+
+std::string smatseg(const std::vector<double>& v, size_t& pos, const size_t rows, const size_t cols)
+{
+    // NB: tensors of libnano are row-major
+    if (rows == 0 || cols == 0) return "-";
+    std::string s;
+    for (size_t i = 0; i < rows; ++i) { if (i) s += ";"; s += sseg(v, pos, cols); }
+    return s;
+}
+
+std::string spar(const ipar_t& q)
+{
+    return vh::hexf(q.s0) + "," + vh::hexf(q.miu) + "," + vh::hexf(q.alpha) + "," + vh::hexf(q.beta) + "," + vh::hexf(q.eps) + "," +
+           vh::hexf(q.eps0) + "," + std::to_string(q.max_iters) + "," + std::to_string(q.max_ls);
+}
+
+ipar_t parse_par(const std::string& s)
+{
+    ipar_t     q;
+    const auto t = vh::split(s, ',');
+    if (t.size() >= 8)
+    {
+        q.s0 = vh::parsef(t[0]); q.miu = vh::parsef(t[1]); q.alpha = vh::parsef(t[2]); q.beta = vh::parsef(t[3]);
+        q.eps = vh::parsef(t[4]); q.eps0 = vh::parsef(t[5]); q.max_iters = std::atol(t[6].c_str()); q.max_ls = std::atol(t[7].c_str());
+    }
+    return q;
+}
+
+void run_iter(const prog_t& P, const ipar_t& q, const long id)
+{
+    const auto n = P.n;
+    const auto A = to_matrix(P.A, n), G = to_matrix(P.G, n);
+    const auto b = to_vector(P.b), h = to_vector(P.h), c = to_vector(P.c);
+    auto       Qm = P.Q.empty() ? matrix_t{} : to_matrix(P.Q, n);
+
+    std::cout << "ISOLVE " << id << " par=" << spar(q) << " :: " << program_text(P, id) << " | - | - | - | " << svec(P.x0) << " | - | - | -\n";
+
+    auto solver                                   = solver_t{};
+    solver.parameter("solver::s0")                = q.s0;
+    solver.parameter("solver::miu")               = q.miu;
+    solver.parameter("solver::alpha")             = q.alpha;
+    solver.parameter("solver::beta")              = q.beta;
+    solver.parameter("solver::epsilon")           = q.eps;
+    solver.parameter("solver::epsilon0")          = q.eps0;
+    solver.parameter("solver::max_iters")         = static_cast<int64_t>(q.max_iters);
+    solver.parameter("solver::max_lsearch_iters") = static_cast<int64_t>(q.max_ls);
+    const auto logger = make_null_logger();
+    g_ievents.clear();
+    ::nano::verif::g_values_hook.store(&values_hook);
+    solver_state_t state;
+    if (P.Q.empty())
+    {
+        const auto program = make_linear(c, make_equality(A, b), make_inequality(G, h));
+        state = P.x0.empty() ? solver.solve(program, logger) : solver.solve(program, to_vector(P.x0), logger);
+    }
+    else
+    {
+        const auto program = make_quadratic(Qm, c, make_equality(A, b), make_inequality(G, h));
+        state = P.x0.empty() ? solver.solve(program, logger) : solver.solve(program, to_vector(P.x0), logger);
+    }
+    ::nano::verif::g_values_hook.store(nullptr);
+    ++g_iter_solves;
+
+    long k = 0;
+    for (const auto& ev : g_ievents)
+    {
+        const auto& v = ev.values;
+        size_t      pos = 0;
+        if (ev.kind == ::nano::verif::ev_program_start)
+        {
+            const auto nn = static_cast<size_t>(v.at(0)), mm = static_cast<size_t>(v.at(1)), pp = static_cast<size_t>(v.at(2));
+            const auto qq = static_cast<size_t>(v.at(3));
+            pos           = 4;
+            std::cout << "IPROG " << id << " n=" << nn << " m=" << mm << " p=" << pp << " q=" << qq << " maxit=" << q.max_iters << " maxls=" << q.max_ls
+                      << " eps=" << vh::hexf(q.eps) << " eps0=" << vh::hexf(q.eps0);
+            std::cout << " | " << sseg(v, pos, 1);
+            std::cout << " | " << smatseg(v, pos, qq * nn, nn);
+            std::cout << " | " << sseg(v, pos, nn);
+            std::cout << " | " << smatseg(v, pos, pp, nn);
+            std::cout << " | " << sseg(v, pos, pp);
+            std::cout << " | " << smatseg(v, pos, mm, nn);
+            std::cout << " | " << sseg(v, pos, mm);
+            std::cout << " | " << sseg(v, pos, nn) << "\n";
+            if (pos != v.size()) std::cout << "FAIL hook-layout id=" << id << " ev_program_start carries " << v.size() << " values, " << pos << " expected\n";
+        }
+        else
+        {
+            const auto nn = static_cast<size_t>(v.at(0)), mm = static_cast<size_t>(v.at(1)), pp = static_cast<size_t>(v.at(2));
+            const auto ex = static_cast<int>(v.at(3));
+            pos           = 4;
+            std::cout << "ITER " << id << " " << k++ << " exit=" << ex;
+            std::cout << " | " << sseg(v, pos, 6);
+            std::cout << " | " << sseg(v, pos, 4);
+            for (int rep = 0; rep < 2; ++rep) // before: x u v rdual rcent rprim ; then dx du dv x' u' v'
+            {
+                std::cout << " | " << sseg(v, pos, nn);
+                std::cout << " | " << sseg(v, pos, mm);
+                std::cout << " | " << sseg(v, pos, pp);
+                std::cout << " | " << sseg(v, pos, nn);
+                std::cout << " | " << sseg(v, pos, mm);
+                std::cout << " | " << sseg(v, pos, pp);
+            }
+            std::cout << " | " << sseg(v, pos, 3) << "\n";
+            ++g_iter_lines;
+            if (pos != v.size()) std::cout << "FAIL hook-layout id=" << id << " ev_program_iter carries " << v.size() << " values, " << pos << " expected\n";
+        }
+    }
+    std::cout << "IFINAL " << id << " " << static_cast<int>(state.m_status) << " " << state.m_iters << " " << vh::hexf(state.m_fx) << " "
+              << vh::hexf(state.m_eta) << " " << vh::hexf(state.m_ldlt_rcond) << " | " << svec(state.m_x) << " | " << svec(state.m_u) << " | "
+              << svec(state.m_v) << " | " << svec(state.m_rdual) << " | " << svec(state.m_rprim) << " | " << svec(state.m_rcent) << "\n";
+    g_ievents.clear();
+}
+
+double pick(vh::rng_t& rng, const std::vector<double>& values, const int first_percent)
+{
+    if (chance(rng, first_percent)) return values[0];
+    return values[static_cast<size_t>(rng.range(0, static_cast<int64_t>(values.size()) - 1))];
+}
+
+ipar_t gen_par(vh::rng_t& rng)
+{
+    ipar_t q;
+    q.s0        = pick(rng, {0.999, 0.99, 0.9, 0.5, 0.25, 0.9999}, 50);
+    q.miu       = pick(rng, {10.0, 2.0, 1.5, 100.0, 1e4, 1.0625}, 50);
+    q.alpha     = pick(rng, {1e-2, 1e-4, 0.1, 0.5, 0.9, 0.99}, 35);
+    q.beta      = pick(rng, {0.9, 0.5, 0.1, 0.99, 0.7, 0.25}, 35);
+    q.eps       = pick(rng, {1e-10, 1e-6, 1e-3, 1e-12, 0.0}, 60);
+    q.eps0      = pick(rng, {1e-16, 0.0, 1e-12, 1e-8, 1e-5, 1e-3}, 40);
+    q.max_iters = static_cast<long>(pick(rng, {300.0, 10.0, 25.0, 60.0}, 50));
+    q.max_ls    = static_cast<long>(pick(rng, {10.0, 50.0, 20.0, 12.0}, 50));
+    return q;
+}
+
+void iter_stage(const long count, const long chunk)
+{
+    vh::rng_t  rng0(vh::env_seed() ^ 0x17E8A7104ULL);
+    const auto h0 = rng0.next();
+    vh::rng_t  rng(h0 ^ (static_cast<uint64_t>(chunk) + 1U) * 0xD1B54A32D192ED03ULL);
+    rng.next();
+    long id = 500000000L + chunk * 1000000L;
+    for (long k = 0; k < count; ++k)
+    {
+        const int  what = static_cast<int>(rng.range(0, 99));
+        const auto q    = chance(rng, 20) ? ipar_t{} : gen_par(rng);
+        if (what < 55)
+        {
+            auto P = gen_kkt(rng);
+            // NB: the driver recomputes every pass in exact rationals (m different denominators per pass): small programs only
+            while (P.n > g_iter_maxn || static_cast<int>(P.G.size()) > 2 * g_iter_maxn) P = gen_kkt(rng);
+            const long b0 = id;
+            run_iter(P, q, id++);
+            if (chance(rng, 25)) run_iter(restate(rng, P, b0), gen_par(rng), id++);
+            if (chance(rng, 6)) run_iter(make_infeasible(rng, P, b0), q, id++);
+        }
+        else if (what < 60)
+        {
+            auto P = gen_unbounded(rng);
+            while (P.n > g_iter_maxn || static_cast<int>(P.G.size()) > 2 * g_iter_maxn) P = gen_unbounded(rng);
+            run_iter(P, q, id++);
+        }
+        else run_iter(gen_tiny(rng), q, id++);
+    }
+    std::cout << "DONE iter_solves=" << g_iter_solves << " iter_lines=" << g_iter_lines << "\n";
+}
+
 prog_t parse_program(const std::string& text)
 {
     // "SOLVE id kind=.. base=.. x0=.. expect=.. n=.. | Q | c | A | b | G | h [| Ar | br | d | x0 | xs | us | vs]"
@@ -866,6 +1073,19 @@ int main(int argc, char** argv)
         const auto P = parse_program(argv[2]);
         run_one(P, 0, C);
         std::cout << "DONE solves=" << C.solves << " converged=" << C.converged << " fails=" << C.fails << "\n";
+        return 0;
+    }
+    if (mode == "iterreplay" && argc > 3)
+    {
+        run_iter(parse_program(argv[2]), parse_par(argv[3]), 0);
+        std::cout << "DONE iter_solves=" << g_iter_solves << " iter_lines=" << g_iter_lines << "\n";
+        return 0;
+    }
+    if (mode == "iter")
+    {
+        const std::string tier = argc > 2 ? argv[2] : "quick";
+        g_iter_maxn = tier == "thorough" ? 8 : 6;
+        iter_stage(argc > 3 ? std::atol(argv[3]) : (tier == "thorough" ? 2000 : 250), argc > 4 ? std::atol(argv[4]) : 0);
         return 0;
     }
     if (mode == "reduce" && argc > 4)
